@@ -486,6 +486,8 @@ def run(run):
     gapfill(run, fx)
     edgefill(run, fx)
     assocpasses(run, fx)
+    from . import c03
+    c03.nomutpos(run, vm)        # no pass that runs after associateChars may insert or delete slots: the loader types every pass from m_pPass on as POSITIONING or later (shared with C03)
     ac = fx.one('graphite2::Segment::associateChars')
     try:
         cases, prob = assocexec(run, fx)
